@@ -243,3 +243,238 @@ Example c02_example_dublin6 :
                                     q_o_tos := 0; q_o_id := 0; q_o_flags := 0; q_o_ttl := 0; q_o_ck := 0; q_o_opts := [] |} dg) =
   Ok (Some (RTimeExceeded (mk_resp_data 0 (a 9) (PUdp 0 (a 2) 5000 33434 (Some 0) 48879 48879 3 true)) 0 None)).
 Proof. vm_compute. reflexivity. Qed.
+
+(* ======================================================================================================================
+   END TO END: strategy -> dispatch -> wire -> conforming router / target -> receive path -> acceptance test
+   (Proofs/WireShapes.v, Proofs/WireE2E.v).  Vocabulary:
+     issued sc p          sc is builder-accepted (Accept) and p is handed to the network by an iteration of the strategy
+                          loop (Core/Strategy.v step) in a state reachable from the initial one;
+     same_trace sc cfg rc the strategy, channel and receive-path configurations carry the same target, protocol, source,
+                          payload pattern and initial sequence (Builder::build derives them from one set of values);
+     run_send BoNetwork cfg [] p   Channel::connect followed by one Network::send_probe(p) (Net/ChannelSend.v over
+                          Net/Dispatch4.v / Dispatch6.v): the socket operations, in order, and the result;
+     answers sc res p a   res = Ok (Some r), r passes validate / check_trace_id, the sequence recovered from r is
+                          p_sequence p, and r came from address a.
+   Where the kernel builds headers (IPv6 fixed header; datagram / stream sockets) what is assumed of it is a predicate
+   (kernel_ipv6, kernel_udp4, kernel_udp6_dgram, kernel_syn4, kernel_syn6), never an axiom. *)
+From TV Require Import Net.Sock Net.ChannelSend Net.SendSpec Proofs.WireShapes Proofs.WireE2E.
+
+(* ICMP over IPv4.  The raw dispatch of an issued probe writes ONE datagram b: an echo request from the configured source
+   to the target with the configured TOS, the probe's TTL, the tracer's trace identifier, the probe's sequence and the
+   pattern payload.  Every Time Exceeded / Destination Unreachable a conforming router builds from b (any quotation
+   length >= 28, TTL / TOS / header checksum rewritten, with or without extensions, outer options) is recognised as the
+   response to exactly this probe, and so is the Echo Reply that echoes b's identifier, sequence and data. *)
+Theorem c02_e2e_icmp4 : forall sc cfg rc p,
+  issued sc p -> proto sc = Icmp -> same_trace sc cfg rc -> cfg_v4 cfg -> 28 <= cc_packet_size cfg <= 1024 ->
+  exists b ick,
+    run_send BoNetwork cfg [] p = (connect_ops false cfg ++ [SendTo b (cc_target cfg) 0], Ok tt) /\
+    b = icmp4_probe (cc_source cfg) (cc_target cfg) (cc_tos cfg) (p_ttl p) 0 (trace_identifier sc) (p_sequence p) ick
+          (repeat (cc_payload_pattern cfg) (Z.to_nat (cc_packet_size cfg - 28))) /\
+    (forall now me peer, peer4_conforming me peer -> zlen (quote4 me peer b) <= 1024 ->
+       answers sc (recv4 rc now (quote4 me peer b)) p (q_router peer)) /\
+    (forall now me o_tos o_id o_fl o_ttl o_ck o_opts ck, length me = 4%nat ->
+       zlen o_opts = 4 * (zlen o_opts / 4) -> zlen o_opts <= 40 ->
+       let reply := echo_reply4 me (cc_target cfg) o_tos o_id o_fl o_ttl o_ck o_opts ck
+                      (RecvRoundtrip.u16 b 24) (RecvRoundtrip.u16 b 26) (skipn 28 b) in
+       zlen reply <= 1024 -> answers sc (recv4 rc now reply) p (cc_target cfg)).
+Proof. exact e2e_icmp4. Qed.
+
+(* UDP over IPv4 through the raw socket, every strategy and port direction the builder accepts: classic (the sequence
+   is one of the ports), Paris (the UDP checksum field carries the sequence, two payload octets compensate), Dublin
+   (the IP identification is the sequence; the checksum is the one make_udp_packet computes, zero included).  The one
+   datagram the dispatch writes, quoted by any conforming router, is recognised as the response to exactly this probe. *)
+Theorem c02_e2e_udp4 : forall sc cfg rc p,
+  issued sc p -> proto sc = Udp -> same_trace sc cfg rc -> cfg_v4 cfg -> cc_privilege cfg = Privileged ->
+  28 <= cc_packet_size cfg <= 1024 ->
+  exists b uck payload,
+    run_send BoNetwork cfg [] p = (connect_ops false cfg ++ [SendTo b (cc_target cfg) (p_dest_port p)], Ok tt) /\
+    b = udp4_probe (cc_source cfg) (cc_target cfg) (cc_tos cfg) (p_ttl p) 0 (p_identifier p) (p_src_port p) (p_dest_port p) uck payload /\
+    (multipath sc = Paris -> uck = p_sequence p /\ zlen payload = 2) /\
+    (multipath sc <> Paris -> payload = repeat (cc_payload_pattern cfg) (Z.to_nat (cc_packet_size cfg - 28)) /\
+                              uck = udp4_wire_checksum cfg p payload) /\
+    (multipath sc = Dublin -> p_identifier p = p_sequence p) /\
+    (forall now me peer, peer4_conforming me peer -> zlen (quote4 me peer b) <= 1024 ->
+       answers sc (recv4 rc now (quote4 me peer b)) p (q_router peer)).
+Proof. exact e2e_udp4. Qed.
+
+(* UDP over IPv4 in unprivileged mode with the classic strategy: the dispatch creates a datagram socket, binds it to the
+   probe's source port, sets TTL and TOS and sends the pattern payload to the probe's destination port; the KERNEL builds
+   both headers.  For every datagram the kernel may build from these operations (kernel_udp4: these addresses and ports,
+   this payload; TOS, TTL, identification, checksums arbitrary) the quotation is recognised as this probe's response. *)
+Theorem c02_e2e_udp4_unprivileged_classic : forall sc cfg rc p,
+  issued sc p -> proto sc = Udp -> multipath sc = Classic -> same_trace sc cfg rc -> cfg_v4 cfg ->
+  cc_privilege cfg = Unprivileged -> 28 <= cc_packet_size cfg <= 1024 ->
+  let payload := repeat (cc_payload_pattern cfg) (Z.to_nat (cc_packet_size cfg - 28)) in
+  run_send BoNetwork cfg [] p =
+    (connect_ops false cfg ++
+       [NewSocket SkUdp4 false; Bind (cc_source cfg) (p_src_port p); SetTtl (p_ttl p); SetTos (cc_tos cfg);
+        SendTo payload (cc_target cfg) (p_dest_port p)], Ok tt) /\
+  (p_src_port p = p_sequence p \/ p_dest_port p = p_sequence p) /\
+  forall d, kernel_udp4 (cc_source cfg) (cc_target cfg) (p_src_port p) (p_dest_port p) payload d ->
+  forall now me peer, peer4_conforming me peer -> zlen (quote4 me peer d) <= 1024 ->
+    answers sc (recv4 rc now (quote4 me peer d)) p (q_router peer).
+Proof. exact e2e_udp4_unprivileged_classic. Qed.
+
+(* TCP over IPv4, the ICMP side: the dispatch binds a stream socket to the probe's source port and connects it to the
+   probe's destination port; the kernel builds the SYN (kernel_syn4: these addresses and ports, a TCP header of 20..60
+   octets).  Its quotation - even the RFC 792 minimum of 8 octets of the TCP header - is recognised as this probe's. *)
+Theorem c02_e2e_tcp4_quoted : forall sc cfg rc p,
+  issued sc p -> proto sc = Tcp -> same_trace sc cfg rc -> cfg_v4 cfg -> cc_packet_size cfg <= 1024 ->
+  run_send BoNetwork cfg [] p =
+    (connect_ops false cfg ++
+       [NewSocket SkTcp4 false; Bind (cc_source cfg) (p_src_port p); SetTtl (p_ttl p); SetTos (cc_tos cfg);
+        Connect (cc_target cfg) (p_dest_port p)], Ok tt) /\
+  (p_src_port p = p_sequence p \/ p_dest_port p = p_sequence p) /\
+  forall d, kernel_syn4 (cc_source cfg) (cc_target cfg) (p_src_port p) (p_dest_port p) d ->
+  forall now me peer, peer4_conforming me peer -> zlen (quote4 me peer d) <= 1024 ->
+    answers sc (recv4 rc now (quote4 me peer d)) p (q_router peer).
+Proof. exact e2e_tcp4_quoted. Qed.
+
+(* ICMP over IPv6: the dispatch writes the echo request m to the ICMPv6 socket after setting the hop limit; the kernel
+   puts the fixed header in front (kernel_ipv6: configured addresses, next header 58, payload length |m|; traffic class,
+   flow label, hop limit arbitrary).  Every conforming ICMPv6 error quoting that datagram, and the Echo Reply echoing
+   m's identifier, sequence and data, are recognised as this probe's response. *)
+Theorem c02_e2e_icmp6 : forall sc cfg rc p,
+  issued sc p -> proto sc = Icmp -> same_trace sc cfg rc -> cfg_v6 cfg -> 48 <= cc_packet_size cfg <= 1024 ->
+  exists m ick,
+    run_send BoNetwork cfg [] p =
+      (connect_ops true cfg ++ [SetUnicastHopsV6 (p_ttl p); SendTo m (cc_target cfg) 0], Ok tt) /\
+    m = icmp_echo 128 ick (trace_identifier sc) (p_sequence p) (repeat (cc_payload_pattern cfg) (Z.to_nat (cc_packet_size cfg - 48))) /\
+    (forall d, kernel_ipv6 (cc_source cfg) (cc_target cfg) 58 m d ->
+     forall now peer, peer6_conforming peer -> conforming6 peer d -> (q_ext peer = XNone \/ zlen (quote6 peer d) <= 1024) ->
+       answers sc (recv6 rc now (Some (q_router peer)) (quote6 peer d)) p (q_router peer)) /\
+    (forall now ck, answers sc (recv6 rc now (Some (cc_target cfg))
+                                  (echo_reply6 ck (RecvRoundtrip.u16 m 4) (RecvRoundtrip.u16 m 6) (skipn 8 m))) p (cc_target cfg)).
+Proof. exact e2e_icmp6. Qed.
+
+(* UDP over IPv6 through the raw socket, the three strategies.  The UDP message m the dispatch writes never has a zero
+   checksum field (RFC 8200 8.1).  Classic: the pattern payload of the configured size.  Dublin: the marker "trippy"
+   followed by (sequence - initial_sequence) pattern octets - the payload length is the sequence.  Paris: the checksum
+   field IS the sequence (never 0: the builder refuses initial_sequence 0) and the two payload octets hold the checksum
+   the dispatch computed with the computed-zero rule applied (a computed 0 is written as 0xFFFF), so they are never 0.
+   Whatever fixed header the kernel adds, every conforming ICMPv6 error quoting the datagram is recognised as this probe's. *)
+Theorem c02_e2e_udp6 : forall sc cfg rc p,
+  issued sc p -> proto sc = Udp -> same_trace sc cfg rc -> cfg_v6 cfg -> cc_privilege cfg = Privileged ->
+  48 <= cc_packet_size cfg <= 1024 ->
+  exists m uck payload,
+    run_send BoNetwork cfg [] p =
+      (connect_ops true cfg ++ [SetUnicastHopsV6 (p_ttl p); SendTo m (cc_target cfg) 0], Ok tt) /\
+    m = udp_dgram (p_src_port p) (p_dest_port p) uck payload /\ uck <> 0 /\
+    match multipath sc with
+    | Classic => payload = repeat (cc_payload_pattern cfg) (Z.to_nat (cc_packet_size cfg - 48))
+    | Dublin => payload = dublin6_payload (cc_payload_pattern cfg) (p_sequence p - initial_sequence sc)
+    | Paris => uck = p_sequence p /\ zlen payload = 2 /\ RecvRoundtrip.u16 payload 0 <> 0
+    end /\
+    (forall d, kernel_ipv6 (cc_source cfg) (cc_target cfg) 17 m d ->
+     forall now peer, peer6_conforming peer -> conforming6 peer d -> (q_ext peer = XNone \/ zlen (quote6 peer d) <= 1024) ->
+       answers sc (recv6 rc now (Some (q_router peer)) (quote6 peer d)) p (q_router peer)).
+Proof. exact e2e_udp6. Qed.
+
+(* UDP over IPv6 in unprivileged mode, classic strategy: the kernel builds the UDP header and the fixed header *)
+Theorem c02_e2e_udp6_unprivileged_classic : forall sc cfg rc p,
+  issued sc p -> proto sc = Udp -> multipath sc = Classic -> same_trace sc cfg rc -> cfg_v6 cfg ->
+  cc_privilege cfg = Unprivileged -> 48 <= cc_packet_size cfg <= 1024 ->
+  let payload := repeat (cc_payload_pattern cfg) (Z.to_nat (cc_packet_size cfg - 48)) in
+  run_send BoNetwork cfg [] p =
+    (connect_ops true cfg ++
+       [NewSocket SkUdp6 false; Bind (cc_source cfg) (p_src_port p); SetUnicastHopsV6 (p_ttl p);
+        SendTo payload (cc_target cfg) (p_dest_port p)], Ok tt) /\
+  (p_src_port p = p_sequence p \/ p_dest_port p = p_sequence p) /\
+  forall d, kernel_udp6_dgram (cc_source cfg) (cc_target cfg) (p_src_port p) (p_dest_port p) payload d ->
+  forall now peer, peer6_conforming peer -> conforming6 peer d -> (q_ext peer = XNone \/ zlen (quote6 peer d) <= 1024) ->
+    answers sc (recv6 rc now (Some (q_router peer)) (quote6 peer d)) p (q_router peer).
+Proof. exact e2e_udp6_unprivileged_classic. Qed.
+
+(* TCP over IPv6, the ICMPv6 side: the quoted SYN of the kernel *)
+Theorem c02_e2e_tcp6_quoted : forall sc cfg rc p,
+  issued sc p -> proto sc = Tcp -> same_trace sc cfg rc -> cfg_v6 cfg -> cc_packet_size cfg <= 1024 ->
+  run_send BoNetwork cfg [] p =
+    (connect_ops true cfg ++
+       [NewSocket SkTcp6 false; Bind (cc_source cfg) (p_src_port p); SetUnicastHopsV6 (p_ttl p);
+        Connect (cc_target cfg) (p_dest_port p)], Ok tt) /\
+  (p_src_port p = p_sequence p \/ p_dest_port p = p_sequence p) /\
+  forall d, kernel_syn6 (cc_source cfg) (cc_target cfg) (p_src_port p) (p_dest_port p) d ->
+  forall now peer, peer6_conforming peer -> conforming6 peer d -> (q_ext peer = XNone \/ zlen (quote6 peer d) <= 1024) ->
+    answers sc (recv6 rc now (Some (q_router peer)) (quote6 peer d)) p (q_router peer).
+Proof. exact e2e_tcp6_quoted. Qed.
+
+(* TCP, either family, the socket side: the handshake outcome of the socket the dispatch bound to the probe's source port
+   and connected to its destination port (Channel::dispatch_tcp_probe records exactly these two ports with the socket) -
+   connected, refused, or host unreachable with the reporting address - is recognised as this probe's response *)
+Theorem c02_e2e_tcp_socket : forall sc cfg rc p o now rd,
+  issued sc p -> proto sc = Tcp -> same_trace sc cfg rc ->
+  (exists a, o = TcpConnected (Some a)) \/ o = TcpConnRefused \/ (exists a, o = TcpHostUnreach (Some a)) ->
+  answers sc (recv_probe rc now (Some (o, p_src_port p, p_dest_port p)) rd) p
+    (match o with TcpConnected (Some a) | TcpHostUnreach (Some a) => a | _ => rc_dest rc end).
+Proof. exact e2e_tcp_socket. Qed.
+
+(* The two halves fit: a datagram of this tracer for an issued probe (own4 / own6: as the raw dispatch builds it, or as
+   the kernel builds it from the dispatch's socket operations, with any TOS / TTL / identification / checksums / flow
+   label) is never [foreign4] / [foreign6].  So c02_reject_foreign4 / 6 reject only quotations that differ from EVERY
+   probe this tracer can issue - in protocol, destination (UDP / TCP), a fixed port, the trace identifier (ICMP) or the
+   Dublin marker (IPv6). *)
+Theorem c02_own_probe_never_foreign4 : forall sc cfg p d,
+  issued sc p -> cc_target cfg = target_addr sc -> cfg_v4 cfg -> own4 sc cfg p d -> ~ foreign4 sc d.
+Proof. exact own_not_foreign4. Qed.
+
+Theorem c02_own_probe_never_foreign6 : forall sc cfg p d,
+  issued sc p -> cc_target cfg = target_addr sc -> cfg_v6 cfg -> own6 sc cfg p d -> ~ foreign6 sc d.
+Proof. exact own_not_foreign6. Qed.
+
+(* "recognised as the response to EXACTLY that probe": one response cannot answer two probes with different sequences,
+   nor come from two addresses - the sequence and the sender are functions of the decoded response *)
+Theorem c02_answer_names_one_probe : forall sc res p1 p2 a1 a2,
+  answers sc res p1 a1 -> answers sc res p2 a2 -> p_sequence p1 = p_sequence p2 /\ a1 = a2.
+Proof. exact answers_functional. Qed.
+
+(* KNOWN FINDING F16, sharper, on the dispatch itself: for two probes of one round of an unprivileged Paris / Dublin
+   trace (the builder accepts the cell) the socket operations differ in the TTL option only and the kernel may emit
+   the very same datagrams for both (TTL is rewritten in transit anyway); since the sequence recovered from a response
+   is a function of the response, no quotation can be attributed correctly to both probes: the identity of the probe
+   does not survive the wire in these cells. *)
+Theorem c02_unprivileged_paris_dublin_same_wire_refuted : forall sc cfg p1 p2,
+  issued sc p1 -> issued sc p2 -> proto sc = Udp -> multipath sc <> Classic -> p_round p1 = p_round p2 ->
+  cfg_v4 cfg -> cc_protocol cfg = Udp -> cc_privilege cfg = Unprivileged -> 28 <= cc_packet_size cfg <= 1024 ->
+  (exists ops : Z -> list sockop,
+     run_send BoNetwork cfg [] p1 = (ops (p_ttl p1), Ok tt) /\ run_send BoNetwork cfg [] p2 = (ops (p_ttl p2), Ok tt)) /\
+  (forall payload d, kernel_udp4 (cc_source cfg) (cc_target cfg) (p_src_port p1) (p_dest_port p1) payload d <->
+                     kernel_udp4 (cc_source cfg) (cc_target cfg) (p_src_port p2) (p_dest_port p2) payload d) /\
+  (forall res a1 a2, answers sc res p1 a1 -> answers sc res p2 a2 -> p_sequence p1 = p_sequence p2).
+Proof. exact unprivileged_paris_dublin_same_wire. Qed.
+
+(* ---------------------------------------------------------------- non-vacuity of the end-to-end statements *)
+(* Dublin over IPv4: the first probe of a trace (sequence 33434 = IP identification) is issued, the configurations agree,
+   and the Destination Unreachable with an RFC 4884 extension built from the dispatched datagram decodes to a response
+   carrying the sequence in the identifier and equal expected / actual checksums *)
+Example c02_e2e_example_dublin4 :
+  issued ex_sc4 ex_p4 /\ same_trace ex_sc4 ex_cfg4 ex_rc4 /\ cfg_v4 ex_cfg4 /\
+  peer4_conforming [10; 0; 0; 1] (ex_peer (XRfc4884 ex_ext) 84 (Some 3)) /\
+  exists b, run_send BoNetwork ex_cfg4 [] ex_p4 = (connect_ops false ex_cfg4 ++ [SendTo b [10; 0; 0; 2] 33434], Ok tt) /\
+    recv4 ex_rc4 0 (quote4 [10; 0; 0; 1] (ex_peer (XRfc4884 ex_ext) 84 (Some 3)) b) =
+    Ok (Some (RDestUnreach (mk_resp_data 0 [10; 0; 0; 9] (PUdp 33434 [10; 0; 0; 2] 5000 33434 (Some 184) 21833 21833 56 false)) 3
+                           (Some [1; 0; 2; 0; 0; 16; 0; 0; 1; 0; 0; 17; 1; 1; 2; 0; 2; 3; 0; 4; 9; 9; 9; 9]))).
+Proof.
+  split; [exact ex_issued4|]. split; [exact (proj1 ex_same4)|]. split; [exact (proj2 ex_same4)|]. split.
+  - constructor; try reflexivity; [split; [reflexivity | cbn; lia] | cbn; lia |].
+    cbn [ext_conforming ex_peer q_ext]. exists 0, 0, 0, [OMpls 1 [(16, 0, 0, 1); (17, 1, 1, 2)]; OOther 2 3 [9; 9; 9; 9]].
+    split; [reflexivity|]. split; [lia|]. repeat constructor; cbn; congruence.
+  - eexists. split; [vm_compute; reflexivity|]. vm_compute. reflexivity.
+Qed.
+
+(* Paris over IPv6: the probe is issued, the configurations agree, the message on the wire carries the sequence in the
+   checksum field, and the Time Exceeded quoting the kernel's datagram (flow label 74565) is decoded with it *)
+Example c02_e2e_example_paris6 :
+  issued ex_sc6 ex_p6 /\ same_trace ex_sc6 ex_cfg6 ex_rc6 /\ cfg_v6 ex_cfg6 /\
+  exists m, run_send BoNetwork ex_cfg6 [] ex_p6 = (connect_ops true ex_cfg6 ++ [SetUnicastHopsV6 1; SendTo m (a6 2) 0], Ok tt) /\
+    RecvRoundtrip.u16 m 6 = 33434 /\
+    exists r, recv6 ex_rc6 0 (Some (a6 9))
+      (quote6 {| q_router := a6 9; q_unreach := None; q_n := 1232; q_transit := {| t_ttl := 1; t_tos := 0; t_ck := 0 |};
+                 q_ext := XNone; q_icmp_ck := 0; q_u1 := 0; q_u2 := 0; q_u3 := 0;
+                 q_o_tos := 0; q_o_id := 0; q_o_flags := 0; q_o_ttl := 0; q_o_ck := 0; q_o_opts := [] |}
+              (ipv6_hdr 0 74565 (zlen m) 17 1 (a6 1) (a6 2) ++ m)) = Ok (Some r) /\
+      exists sr, strategy_resp ex_sc6 r = Ok sr /\ sr_sequence sr = 33434.
+Proof.
+  split; [exact ex_issued6|]. split; [exact (proj1 ex_same6)|]. split; [exact (proj2 ex_same6)|].
+  eexists. split; [vm_compute; reflexivity|]. split; [vm_compute; reflexivity|].
+  eexists. split; [vm_compute; reflexivity|]. eexists. split; [vm_compute; reflexivity|]. vm_compute. reflexivity.
+Qed.
